@@ -11,11 +11,71 @@ open EmitModel.Sched
 /-- Decompose `hs : step cfg s l = some s'` into one goal per branch of the code, with `s'` substituted.
     (`send` / `trySend` are left folded: use the per-operation lemmas.) -/
 macro "step_elim" hs:ident : tactic => `(tactic| (
-  simp only [step, rxTake, rxBegin, rxOutcome, rxRetryWaited, rxIdleWaited, dropSender, dropReceiver,
-    whenFlushed, whenEmpty, conclude] at $hs:ident
+  simp only [step, rxTake, rxFireTake, rxFireFlush, rxBegin, rxOutcome, rxRetryWaited, rxIdleWaited, dropSender,
+    dropReceiver, whenFlushed, whenEmpty, conclude] at $hs:ident
   repeat' (split at $hs:ident)
   all_goals (first | (simp at $hs:ident; done) | skip)
   all_goals (try (simp only [Option.some.injEq] at $hs:ident; subst $hs:ident))))
+
+/-! ### The accessors on each control point (so that proofs never unfold them into a `match`) -/
+
+@[simp] theorem inflight_idle : Rx.inflight .idle = [] := rfl
+@[simp] theorem inflight_taken (b tw fw : List Nat) (o : Bool) : Rx.inflight (.taken b tw fw o) = b := rfl
+@[simp] theorem inflight_processing (a c ws : List Nat) : Rx.inflight (.processing a c ws) = a := rfl
+@[simp] theorem inflight_retryWait (a c ws : List Nat) : Rx.inflight (.retryWait a c ws) = a := rfl
+@[simp] theorem inflight_notifying (ws : List Nat) : Rx.inflight (.notifying ws) = [] := rfl
+@[simp] theorem inflight_idleWait : Rx.inflight .idleWait = [] := rfl
+@[simp] theorem inflight_done : Rx.inflight .done = [] := rfl
+@[simp] theorem ws_idle : Rx.ws .idle = [] := rfl
+@[simp] theorem ws_taken (b tw fw : List Nat) (o : Bool) : Rx.ws (.taken b tw fw o) = fw := rfl
+@[simp] theorem ws_processing (a c ws : List Nat) : Rx.ws (.processing a c ws) = ws := rfl
+@[simp] theorem ws_retryWait (a c ws : List Nat) : Rx.ws (.retryWait a c ws) = ws := rfl
+@[simp] theorem ws_notifying (ws : List Nat) : Rx.ws (.notifying ws) = ws := rfl
+@[simp] theorem ws_idleWait : Rx.ws .idleWait = [] := rfl
+@[simp] theorem ws_done : Rx.ws .done = [] := rfl
+@[simp] theorem takeWs_idle : Rx.takeWs .idle = [] := rfl
+@[simp] theorem takeWs_taken (b tw fw : List Nat) (o : Bool) : Rx.takeWs (.taken b tw fw o) = tw := rfl
+@[simp] theorem takeWs_processing (a c ws : List Nat) : Rx.takeWs (.processing a c ws) = [] := rfl
+@[simp] theorem takeWs_retryWait (a c ws : List Nat) : Rx.takeWs (.retryWait a c ws) = [] := rfl
+@[simp] theorem takeWs_notifying (ws : List Nat) : Rx.takeWs (.notifying ws) = [] := rfl
+@[simp] theorem takeWs_idleWait : Rx.takeWs .idleWait = [] := rfl
+@[simp] theorem takeWs_done : Rx.takeWs .done = [] := rfl
+@[simp] theorem takenBatch_idle : Rx.takenBatch .idle = [] := rfl
+@[simp] theorem takenBatch_taken (b tw fw : List Nat) (o : Bool) : Rx.takenBatch (.taken b tw fw o) = b := rfl
+@[simp] theorem takenBatch_processing (a c ws : List Nat) : Rx.takenBatch (.processing a c ws) = [] := rfl
+@[simp] theorem takenBatch_retryWait (a c ws : List Nat) : Rx.takenBatch (.retryWait a c ws) = [] := rfl
+@[simp] theorem takenBatch_notifying (ws : List Nat) : Rx.takenBatch (.notifying ws) = [] := rfl
+@[simp] theorem takenBatch_idleWait : Rx.takenBatch .idleWait = [] := rfl
+@[simp] theorem takenBatch_done : Rx.takenBatch .done = [] := rfl
+
+/-! ### `afterNotify ws` is the loop head or the notifying state: what the accessors and tests say about it -/
+
+@[simp] theorem afterNotify_takenBatch (ws : List Nat) : (afterNotify ws).takenBatch = [] := by
+  cases ws <;> rfl
+@[simp] theorem afterNotify_inflight (ws : List Nat) : (afterNotify ws).inflight = [] := by
+  cases ws <;> rfl
+@[simp] theorem afterNotify_ws (ws : List Nat) : (afterNotify ws).ws = ws := by
+  cases ws <;> rfl
+@[simp] theorem afterNotify_takeWs (ws : List Nat) : (afterNotify ws).takeWs = [] := by
+  cases ws <;> rfl
+@[simp] theorem afterNotify_ne_taken (ws b tw fw : List Nat) (o : Bool) : afterNotify ws ≠ .taken b tw fw o := by
+  cases ws <;> simp [afterNotify]
+@[simp] theorem afterNotify_ne_processing (ws a b c : List Nat) : afterNotify ws ≠ .processing a b c := by
+  cases ws <;> simp [afterNotify]
+@[simp] theorem afterNotify_ne_retryWait (ws a b c : List Nat) : afterNotify ws ≠ .retryWait a b c := by
+  cases ws <;> simp [afterNotify]
+@[simp] theorem afterNotify_ne_done (ws : List Nat) : afterNotify ws ≠ .done := by
+  cases ws <;> simp [afterNotify]
+@[simp] theorem afterNotify_ne_idleWait (ws : List Nat) : afterNotify ws ≠ .idleWait := by
+  cases ws <;> simp [afterNotify]
+@[simp] theorem afterNotify_eq_taken (ws b tw fw : List Nat) (o : Bool) :
+    (afterNotify ws = .taken b tw fw o) = False := by simp
+@[simp] theorem afterNotify_eq_processing (ws a b c : List Nat) : (afterNotify ws = .processing a b c) = False := by
+  simp
+@[simp] theorem afterNotify_eq_retryWait (ws a b c : List Nat) : (afterNotify ws = .retryWait a b c) = False := by
+  simp
+@[simp] theorem afterNotify_eq_done (ws : List Nat) : (afterNotify ws = .done) = False := by simp
+@[simp] theorem afterNotify_eq_idleWait (ws : List Nat) : (afterNotify ws = .idleWait) = False := by simp
 
 theorem dropTail_append (a b : List Nat) : dropTail (a ++ b) b.length = a := by
   simp [dropTail]
@@ -30,7 +90,7 @@ structure InvPart (s : St) : Prop where
   perm : s.accepted.Perm (s.acceptedKept ++ s.truncations.flatten)
 
 theorem invPart_init : InvPart init := by
-  constructor <;> simp [init, Rx.takenBatch]
+  constructor <;> simp [init]
 
 theorem invPart_truncate (s : St) (h : InvPart s) : InvPart (truncate s) := by
   obtain ⟨h1, h2, h3⟩ := h
@@ -75,7 +135,8 @@ theorem invPart_step (cfg : Cfg) (s : St) (l : Label) (s' : St) (h : InvPart s) 
   all_goals
     obtain ⟨h1, h2, h3⟩ := h
     step_elim hs
-    all_goals (constructor <;> simp_all [Rx.takenBatch])
+    all_goals (constructor <;> simp_all)
+    all_goals (cases hrx : s.rx <;> simp_all <;> grind)
 
 theorem invPart_reachable (cfg : Cfg) (s : St) (h : Reachable cfg s) : InvPart s :=
   invariant_of_step invPart_init (invPart_step cfg) s h
